@@ -1,8 +1,8 @@
 """Contract base class and the per-function verification driver."""
 from __future__ import annotations
-import time, types, traceback
+import time, types, traceback, os
 import z3
-from .core import Engine, PathEnd, Unsupported, CheckerBug, discharge, VC, as_bool
+from .core import Engine, PathEnd, Unsupported, CheckerBug, discharge, discharge_all, VC, as_bool
 from .interp import Interp, PyRaise, LoopSpec, Env
 from .registry import Registry, install_bio_models
 from .repo import RepoIndex, source_hash
@@ -111,6 +111,7 @@ def verify_function(contract, repo=None, tier='quick'):
         res.detail = f'function not found: {contract.name()}'
         return res
     res.source_hash = source_hash(fnode)
+    repo.prefer_module = module
     e = Engine(contract.qualname, timeout_ms=contract.timeout_ms, max_paths=contract.max_paths)
 
     def run(e):
@@ -146,13 +147,12 @@ def verify_function(contract, repo=None, tier='quick'):
     res.exits = e.path_exits
     axioms = list(e.axioms) + e.strlit_axioms()
     if res.status == 'ok':
-        for vc in e.vcs:
-            try:
-                discharge(vc, axioms, timeout_ms=contract.timeout_ms, also_cvc5=(tier == 'thorough'))
-            except CheckerBug as ex:
-                res.status = 'crash'
-                res.detail = str(ex)
-                break
+        try:
+            discharge_all(e.vcs, axioms, timeout_ms=contract.timeout_ms, also_cvc5=(tier == 'thorough'),
+                          jobs=int(os.environ.get('PYVC_JOBS', '4')))
+        except CheckerBug as ex:
+            res.status = 'crash'
+            res.detail = str(ex)
     res.vcs = e.vcs
     res.axioms = axioms
     res.time = time.time() - t0
@@ -188,8 +188,7 @@ class Lemma(Contract):
                         self.qualname)
                 e.vcs.append(vc)
             axioms = list(e.axioms) + e.strlit_axioms()
-            for vc in e.vcs:
-                discharge(vc, axioms, timeout_ms=self.timeout_ms, also_cvc5=(tier == 'thorough'))
+            discharge_all(e.vcs, axioms, timeout_ms=self.timeout_ms, also_cvc5=(tier == 'thorough'))
         except CheckerBug as ex:
             res.status, res.detail = 'crash', str(ex)
         except Exception as ex:
